@@ -164,7 +164,7 @@ impl HLayout for AnyLayout {
 }
 impl HLayout for &'static AnyLayout {
     fn make(id: u8) -> Self {
-        &ANY_STATICS[id as usize]
+        any_static(id as usize)
     }
 }
 
